@@ -497,6 +497,35 @@ class Winnow:
     def p_digit1(self, s, st):
         return self.take_while(s, st, 1, None, is_digit)
 
+    def p_dec_uint(self, s, st, bits):
+        """ascii::dec_uint::<_, uN, _>: `0` alone, or [1-9][0-9]* whose value fits uN (verify_map: Backtrack otherwise)"""
+        from .stdmodel import parse_uint
+        if len(s) == 0:
+            return [(True, err("Backtrack", EMPTY_CTX, s))]
+        c0 = self.s_at(s, 0)
+        g0 = chr_eq(c0, 48)
+        g19 = (49 <= c0 <= 57) if isinstance(c0, int) else z3.And(z3.UGE(c0, 49), z3.ULE(c0, 57))
+        res = []
+        if g0 is not False:
+            res.append((g0, ok(0, self.s_from(s, 1))))
+        if g19 is not False:
+            for g, o in self.take_while(self.s_from(s, 1), st, 0, None, is_digit):
+                gg = b_and(g19, g)
+                if gg is False or o[0] != "ok":
+                    continue
+                e = len(s) - len(o[2])
+                items = [self.s_at(s, i) for i in range(e)]
+                for gp, r in parse_uint(self.I, items, bits, 10):
+                    g3 = b_and(gg, gp)
+                    if g3 is False:
+                        continue
+                    if r.variant == "Ok":
+                        res.append((g3, ok(r.fields[0], o[2])))
+                    else:
+                        res.append((g3, err("Backtrack", EMPTY_CTX, s)))
+        res.append((b_not(b_or(g0, g19)), err("Backtrack", EMPTY_CTX, s)))
+        return res
+
     def p_alpha1(self, s, st):
         return self.take_while(s, st, 1, None, is_alpha)
 
@@ -955,6 +984,18 @@ def register(I):
         return h
     R["ascii::digit1"] = leaf("digit1")
     R["ascii::alpha1"] = leaf("alpha1")
+
+    def h_dec_uint(I, st, args, info):
+        return h_parse_next(I, st, [dec_uint_ctor(I, info.path), args[0]], info)
+
+    def dec_uint_ctor(I, path):
+        gens = path.generics(-1)
+        bits = _interp.INT_TYPES.get(_interp.short_type(gens[1])) if len(gens) > 1 else None
+        if bits is None:
+            raise _interp.Unsupported("dec_uint output type: " + path.text[:120])
+        return P("dec_uint", bits)
+    h_dec_uint.parser_ctor = dec_uint_ctor
+    R["ascii::dec_uint"] = h_dec_uint
     R["ascii::multispace0"] = leaf("multispace0")
     R["ascii::multispace1"] = leaf("multispace1")
     R["combinator::eof"] = leaf("eof")
